@@ -23,6 +23,13 @@
 //!    (`utf8_boundary_family`), each sent alone (`conn`, then a well-formed probe from another
 //!    client), through `handle_command` (`cmd`), concurrently (`storm`) and inside schedules whose
 //!    other connections are mid-request or connect afterwards.
+//!    Product keys: the index is keyed by the exact product string. Databases in which a product
+//!    stands beside members of its key family (`key_neighbours`: other letter case, blanks /
+//!    control bytes at the ends, `-` for `_`, one character more or less, other Unicode forms)
+//!    must read back, for each of them, ITS OWN newest record (`clean-<ep>-<tr>`), absent members
+//!    of the family must get an error (`answered-unknown`, `latest-not-newest`), the loaded
+//!    database lists exactly the records' product strings (`index-products-differ`) and so does
+//!    `v1/summary` (`summary-not-db-products`).
 //!
 //! A case is one database: `begin`, `rec`…, `load`, then queries. Request lines are interpreted,
 //! so a case file can be replayed verbatim (`--replay`).
@@ -151,6 +158,34 @@ fn spawn_server(which: usize, addr: SocketAddr, state: Arc<AppState>) -> (tokio:
     (h, slot)
 }
 
+/// Start the library's accept loop on `first` and wait until it listens. `free_port` hands out a
+/// port that is free NOW; between that and the server's own bind somebody else on this machine
+/// (other checks run here, and so do this run's own outgoing connections) can take it. Then
+/// `start_server` returns its bind error at once, before any request exists — an accident of the
+/// setup, not an answer of the server: tallied, and the start is tried again on another port.
+/// Anything else a starting server does (also returning for another reason) is left to the oracle.
+async fn start_listening(s: &mut Session, which: usize, first: SocketAddr, state: &Arc<AppState>) -> (SocketAddr, tokio::task::JoinHandle<()>, ExitSlot) {
+    let mut addr = first;
+    for attempt in 0..8 {
+        let (h, e) = spawn_server(which, addr, state.clone());
+        for _ in 0..400 {
+            if h.is_finished() || TcpStream::connect(addr).await.is_ok() {
+                break;
+            }
+            tokio::time::sleep(Duration::from_millis(5)).await;
+        }
+        // a failed bind is reported by the task within the same poll that started it
+        tokio::time::sleep(Duration::from_millis(2)).await;
+        let bind_failed = h.is_finished() && e.lock().ok().and_then(|g| g.clone()).is_some_and(|t| t.starts_with("Err(Failed to bind "));
+        if !bind_failed || attempt == 7 {
+            return (addr, h, e);
+        }
+        s.tally("setup:port-taken-before-bind-retried");
+        addr = free_port();
+    }
+    unreachable!("the loop returns on its last round")
+}
+
 fn free_port() -> SocketAddr {
     let l = std::net::TcpListener::bind("127.0.0.1:0").expect("bind");
     l.local_addr().expect("addr")
@@ -260,6 +295,14 @@ fn newest<'a>(recs: &'a [BuildRecord], p: &str) -> Option<&'a BuildRecord> {
         }
     }
     best
+}
+
+/// the distinct product strings of the records (exact bytes), sorted
+fn distinct_products(recs: &[BuildRecord]) -> Vec<String> {
+    let mut v: Vec<String> = recs.iter().map(|r| r.product.clone()).collect();
+    v.sort();
+    v.dedup();
+    v
 }
 
 fn default_servers(hosts: &str) -> String {
@@ -641,12 +684,28 @@ async fn run_line_inner(s: &mut Session, ctx: &mut Ctx, line: &str) {
                 Ok(st) => {
                     let state = Arc::new(st);
                     let order: Vec<String> = state.database().products().iter().map(|p| hx(p)).collect();
-                    let (t1, e1) = spawn_server(0, tcp, state.clone());
-                    let (t2, e2) = spawn_server(1, http, state.clone());
-                    wait_port(tcp).await;
-                    wait_port(http).await;
+                    let (tcp, t1, e1) = start_listening(s, 0, tcp, &state).await;
+                    let (http, t2, e2) = start_listening(s, 1, http, &state).await;
                     let req = format!("load {}", order.join(","));
                     let resp = format!("ok products={} total={}", order.len(), state.database().total_builds());
+                    // O (`index-products-differ`): the index lists exactly the distinct product
+                    // strings of the records, byte for byte (no two of them share an entry, none
+                    // is renamed), and counts every record
+                    let mut have: Vec<String> = state.database().products().iter().map(|p| (*p).to_string()).collect();
+                    have.sort();
+                    let want = distinct_products(&ctx.recs);
+                    if have != want || state.database().total_builds() != ctx.recs.len() {
+                        let mut replay = ctx.prelude.clone();
+                        replay.push(req.clone());
+                        s.oracle_fail(
+                            "index-products-differ",
+                            &format!(
+                                "the loaded database lists products {have:?} ({} builds), the records' product strings are {want:?} ({} records)",
+                                state.database().total_builds(), ctx.recs.len()
+                            ),
+                            &replay,
+                        );
+                    }
                     ctx.live = Some(Live {
                         state, tcp, http, tasks: vec![t1, t2], exits: vec![e1, e2],
                         ribbit: RibbitClient::new(format!("{tcp}")).expect("ribbit client"),
@@ -1052,7 +1111,12 @@ async fn run_line_inner(s: &mut Session, ctx: &mut Ctx, line: &str) {
             s.line("clientsum", &resp);
             // O: one row per product, in the server's order
             let order: Vec<String> = live.state.database().products().iter().map(|p| (*p).to_string()).collect();
-            let ok = match &flat {
+            // … and the names are the records' product strings, byte for byte (computed from the
+            // records, not from the server's index)
+            let mut listed = order.clone();
+            listed.sort();
+            let names_ok = listed == distinct_products(&ctx.recs);
+            let ok = names_ok && match &flat {
                 Ok(d) => {
                     d.row_count() == order.len()
                         && d.rows().iter().zip(&order).all(|(r, p)| {
@@ -1066,6 +1130,8 @@ async fn run_line_inner(s: &mut Session, ctx: &mut Ctx, line: &str) {
             } else {
                 let class = if panicked {
                     "client-panic-slice512".to_string()
+                } else if !names_ok {
+                    "summary-not-db-products".to_string()
                 } else if let Some(c) = dirty_class(&order, "summary", None) {
                     format!("dirty-{c}")
                 } else if order.iter().any(|p| p.starts_with('#')) {
@@ -1079,6 +1145,7 @@ async fn run_line_inner(s: &mut Session, ctx: &mut Ctx, line: &str) {
                 };
                 s.tally(&format!("oracle:{class}"));
                 let msg = match &flat {
+                    _ if !names_ok => format!("the server's summary is built from products {order:?}, the records' product strings are {:?}", distinct_products(&ctx.recs)),
                     Ok(d) => format!("summary has {} rows for {} products {:?}", d.row_count(), order.len(), order),
                     Err(e) => format!("summary: client error {e}"),
                 };
@@ -1607,6 +1674,204 @@ fn gen_sched_utf8(rng: &mut Rng, products: &[String], from: usize, n: usize) -> 
     format!("sched {}", out.join(","))
 }
 
+// ---------------------------------------------------------------- product keys that are near one another
+
+/// ASCII letters of `s` with the case of the letter at char position `at` flipped
+fn flip_case_at(s: &str, at: usize) -> String {
+    s.chars()
+        .enumerate()
+        .map(|(i, c)| if i != at { c } else if c.is_ascii_lowercase() { c.to_ascii_uppercase() } else { c.to_ascii_lowercase() })
+        .collect()
+}
+
+/// The boundary family around one product string: strings that are DIFFERENT products (the
+/// validator accepts every non-empty string, the index is keyed by the exact bytes) but equal to
+/// `base`, or to one another, under some plausible normalisation of the key — letter case (ASCII
+/// and beyond), blanks / control bytes at the ends, separator spelling, one character more or
+/// less (prefix / extension), Unicode composition and width. `(kind, string, in_db)`: `in_db` =
+/// may be put into a database without making the v1/summary row unreadable for a known reason
+/// (a leading blank is lost by the reader: finding dirty-edge-blank). Neighbouring entries of the
+/// list are the pairs most likely to collide with each other (upper/lower, é/É/e+accent …).
+fn key_neighbours(base: &str) -> Vec<(&'static str, String, bool)> {
+    let letters: Vec<usize> = base.chars().enumerate().filter(|(_, c)| c.is_ascii_alphabetic()).map(|(i, _)| i).collect();
+    let first = letters.first().copied().unwrap_or(0);
+    let last = letters.last().copied().unwrap_or(0);
+    let sep = if base.contains('_') { base.replace('_', "-") } else if base.contains('-') { base.replace('-', "_") } else { format!("{base}-") };
+    let mut chars: Vec<char> = base.chars().collect();
+    let dropped: String = if chars.len() > 1 { chars[..chars.len() - 1].iter().collect() } else { format!("{base}{base}") };
+    // full-width form of the first character (NFKC folds it back)
+    if let Some(c) = chars.first_mut() {
+        if c.is_ascii_graphic() {
+            *c = char::from_u32(*c as u32 - 0x21 + 0xff01).unwrap_or(*c);
+        }
+    }
+    let wide: String = chars.into_iter().collect();
+    let all: Vec<(&'static str, String, bool)> = vec![
+        ("upper", base.to_ascii_uppercase(), true),
+        ("lower", base.to_ascii_lowercase(), true),
+        ("flip-first", flip_case_at(base, first), true),
+        ("flip-last", flip_case_at(base, last), true),
+        ("trail-space", format!("{base} "), true),
+        ("lead-space", format!(" {base}"), false),
+        ("trail-tab", format!("{base}\t"), true),
+        ("trail-nul", format!("{base}\0"), true),
+        ("drop-last", dropped, true),
+        ("append-letter", format!("{base}t"), true),
+        ("append-underscore", format!("{base}_"), true),
+        ("separator", sep, true),
+        ("append-dot", format!("{base}."), true),
+        ("accent-lower", format!("{base}\u{e9}"), true),
+        ("accent-upper", format!("{base}\u{c9}"), true),
+        ("accent-decomposed", format!("{base}e\u{301}"), true),
+        ("kelvin-k", format!("{base}\u{212a}"), true),
+        ("ascii-k", format!("{base}k"), true),
+        ("full-width", wide, true),
+    ];
+    let mut out: Vec<(&'static str, String, bool)> = vec![];
+    for (k, q, d) in all {
+        if q != base && !q.is_empty() && !out.iter().any(|(_, x, _)| *x == q) {
+            out.push((k, q, d));
+        }
+    }
+    out
+}
+
+/// realistic product codes, several with capitals (so that folding either way moves them)
+const KEY_BASES: [&str; 8] = ["wow_beta", "WoW_Beta", "Agent", "wow_classic_era", "BNA", "d3", "hsb-x", "Pro"];
+
+const KEY_TIMES: [&str; 7] = [
+    "2019-11-21T18:33:35+00:00", "2021-02-03T04:05:06+00:00", "2022-12-31T23:59:59+00:00", "2023-03-03T03:03:03+00:00",
+    "2024-01-01T00:00:00+00:00", "2024-06-01T00:00:00+00:00", "2025-01-01T00:00:00+00:00",
+];
+
+/// the lines that ask for product `q` in every way the server can be asked: the index itself,
+/// handle_command on both protocol versions, the real clients on the three transports, the raw
+/// HTTP route. `eps`: the endpoints to use.
+fn ask_everywhere(lines: &mut Vec<String>, q: &str, eps: &[&str]) {
+    lines.push(format!("latest {}", hx(q)));
+    for ep in eps {
+        for v in ["v1", "v2"] {
+            lines.push(format!("cmd 0 {}", hx(&format!("{v}/products/{q}/{ep}"))));
+        }
+        for tr in ["v1", "v2", "http"] {
+            let opaque = tr == "http" && !addressable_http(q);
+            // a URL cannot carry these at all: the URL parser of the client drops tab / CR / LF
+            // and takes '#', '?', '/', '\\' as delimiters, so the request that leaves the client
+            // names another product — not a request for `q` (URL syntax: outside the HTTP claim)
+            if opaque && q.contains(['\t', '\n', '\r', '#', '?', '/', '\\']) {
+                continue;
+            }
+            lines.push(format!("client{} {tr} {} {ep}", if opaque { "x" } else { "" }, hx(q)));
+        }
+        if addressable_http(q) {
+            lines.push(format!("http 0 {}", hx(&format!("/{q}/{ep}"))));
+        }
+    }
+}
+
+/// A database built around product keys that are near one another (`key_neighbours`): the base
+/// product and two members of its family side by side — database `idx` takes members `idx`,
+/// `idx + 1` of those that may stand in a database, so consecutive databases walk every
+/// neighbouring pair whatever the seed — each with one or two clean records of its own, the
+/// globally newest record going to each of the three in turn. Then every product of the database
+/// and EVERY other member of the family (absent from it) is asked for on all endpoints and
+/// transports: a product of the database must read back as its own newest record, an absent
+/// neighbour must get an error / closed connection. All record strings are clean, so that a wrong
+/// answer cannot be mistaken for one of the known dirty-string findings.
+fn gen_case_keys(rng: &mut Rng, idx: usize) -> Vec<String> {
+    let mut lines = vec![];
+    let hosts = (*rng.pick(&["cdn.test.com", "a.example b.example", "cdn.arctium.tools"])).to_string();
+    let path = (*rng.pick(&["tpr/wow", "test/path"])).to_string();
+    lines.push(format!("begin seqn={SEQN_S} hosts={} path={}", hx(&hosts), hx(&path)));
+    let base = KEY_BASES[(idx / 3) % KEY_BASES.len()].to_string();
+    let fam = key_neighbours(&base);
+    let eligible: Vec<&String> = fam.iter().filter(|(_, _, d)| *d).map(|(_, q, _)| q).collect();
+    let n1 = eligible[idx % eligible.len()].clone();
+    let n2 = eligible[(idx + 1) % eligible.len()].clone();
+    let mut products = vec![base.clone(), n1];
+    if !products.contains(&n2) {
+        products.push(n2);
+    }
+    // sometimes a product from elsewhere as well
+    if rng.chance(1, 3) {
+        products.push("wowt".into());
+    }
+    // times: all distinct; the newest one goes to product `idx % 3`, the others are dealt at random
+    let mut times: Vec<&str> = KEY_TIMES.to_vec();
+    let newest_t = times.pop().expect("non-empty");
+    for i in (1..times.len()).rev() {
+        times.swap(i, rng.below(i as u64 + 1) as usize);
+    }
+    let holder = idx % products.len().min(3);
+    let mut recs: Vec<BuildRecord> = vec![];
+    let mut order: Vec<usize> = (0..products.len()).collect();
+    if rng.chance(1, 2) {
+        order.reverse();
+    }
+    for &k in &order {
+        let n = if k == holder { 1 } else { rng.range(1, 2) as usize };
+        for _ in 0..n {
+            let id = recs.len() as u64 + 1;
+            let mut r = gen_record(rng, id, products[k].clone(), true);
+            r.build_time = times.pop().unwrap_or("2018-01-01T00:00:00+00:00").to_string();
+            // tell the records apart in every reply: version, build and cdn path carry the id
+            r.version = format!("{}.{id}", r.version.replace(' ', "."));
+            r.build = format!("{}", 50_000 + id * 1111);
+            r.cdn_path = if rng.chance(1, 4) { None } else { Some(format!("tpr/p{id}")) };
+            recs.push(r);
+        }
+    }
+    let mut r = gen_record(rng, recs.len() as u64 + 1, products[holder].clone(), true);
+    r.build_time = newest_t.to_string();
+    r.build = "65000".into();
+    r.cdn_path = Some("tpr/newest".into());
+    let at = rng.below(recs.len() as u64 + 1) as usize;
+    recs.insert(at, r);
+    for r in &recs {
+        lines.push(rec_line(r));
+    }
+    lines.push("load ?".into());
+    for p in &products {
+        ask_everywhere(&mut lines, p, &["versions", "cdns", "bgdl"]);
+    }
+    lines.push("clientsum".into());
+    // the absent members of the family: one endpoint each (walking), the first of them all three
+    for (j, (_, q, _)) in fam.iter().filter(|(_, q, _)| !products.contains(q)).enumerate() {
+        if j == 0 {
+            ask_everywhere(&mut lines, q, &["versions", "cdns", "bgdl"]);
+        } else {
+            ask_everywhere(&mut lines, q, &[["versions", "cdns", "bgdl"][(j + idx) % 3]]);
+        }
+    }
+    // the same neighbours from several clients at once, beside requests the database answers
+    let mut mix: Vec<String> = vec![];
+    for (_, q, _) in fam.iter().take(6) {
+        mix.push(hex(format!("v2/products/{q}/versions\r\n").as_bytes()));
+    }
+    for p in &products {
+        mix.push(hex(format!("v1/products/{p}/versions\r\n").as_bytes()));
+    }
+    lines.push(format!("storm 2 {}", mix.join(",")));
+    lines
+}
+
+/// for a database of the general generator: a few members (walking with `idx`) of the key family
+/// of one of ITS products that the database does not have, asked for everywhere — they must not
+/// be answered with that product's (or anybody's) rows
+fn near_miss_requests(rng: &mut Rng, products: &[String], idx: usize) -> Vec<String> {
+    let mut lines = vec![];
+    let Some(p) = products.iter().find(|p| addressable_tcp(p) && p.is_ascii()) else { return lines };
+    let fam = key_neighbours(p);
+    for t in 0..3usize {
+        let (_, q, _) = &fam[(idx * 3 + t) % fam.len()];
+        if products.contains(q) {
+            continue;
+        }
+        ask_everywhere(&mut lines, q, &[*rng.pick(&["versions", "cdns", "bgdl"])]);
+    }
+    lines
+}
+
 /// `%XX` for every byte
 fn pct(c: &str) -> String {
     c.bytes().map(|b| format!("%{b:02X}")).collect()
@@ -1811,6 +2076,10 @@ fn gen_case(rng: &mut Rng, idx: usize, thorough: bool, seed: u64) -> Vec<String>
         }
     }
     lines.push(gen_sched_utf8(rng, &products, (idx % 36) * per, per));
+    // and one more: requests for products the database does NOT have but that differ from one it
+    // has only by letter case / a blank / a separator / one character / Unicode form
+    let rng = &mut Rng::new(seed.wrapping_mul(0xc2b2_ae3d_27d4_eb4f) ^ (idx as u64 + 0x6b65));
+    lines.extend(near_miss_requests(rng, &products, idx));
     lines
 }
 
@@ -1875,6 +2144,19 @@ fn main() {
                 break;
             }
             let lines = gen_case(&mut rng, i, args.thorough(), args.seed);
+            run_case(&mut s, &lines).await;
+        }
+        // databases of products whose keys are near one another (a stream of its own)
+        let mut krng = Rng::new(args.seed.wrapping_mul(0x2545_f491_4f6c_dd1d) ^ 0x6b65_7973);
+        let nkey = if args.thorough() { 240 } else { 24 };
+        for i in 0..nkey {
+            if WEDGES.load(Ordering::Relaxed) >= 4 {
+                break;
+            }
+            // the quick tier starts its walk at a seed-dependent place and still makes a full
+            // round over the neighbouring pairs
+            let lines = gen_case_keys(&mut krng, i + (args.seed as usize % 8) * 3);
+            s.tally("case:key-neighbour-database");
             run_case(&mut s, &lines).await;
         }
         let mut ctx = Ctx::default();
